@@ -1,4 +1,5 @@
 """C02 - the reported workflow status is truthful about the tasks."""
+from ovf.props.c03 import parked  # noqa: F401
 from ovf.props.common import batches, family_slices, scale, ASSUME_SIM
 from ovf.workloads import conduct, corpus, mon  # noqa: F401
 from ovf.props.sweeps import ctl_sweep  # noqa: F401
@@ -7,7 +8,7 @@ LEVEL = "exploration"
 TECHNIQUE = "runtime monitoring: status assertions after every API call against the harness's in-flight set and the ledger's independent 'handled' decision"
 RULE = ("generated definitions x hashed outcomes x seeded schedules with pause/resume/cancel requests, crashes and early "
         "output renders inserted at seeded positions, plus a sweep inserting a pause(+resume) or a cancel at every "
-        "position of base histories; status truthfulness asserted after every API call; additionally the decision-shape family (exhaustive in the thorough tier, a rotating slice in the quick tier): every acyclic edge set over 4 tasks with a join x condition succeeded/failed per edge x outcome per task (4128 definitions); non-trivial = history with at "
+        "position of base histories; status truthfulness asserted after every API call; additionally the decision-shape family (exhaustive in the thorough tier, a rotating slice in the quick tier): every acyclic edge set over 4 tasks with a join x condition succeeded/failed per edge x outcome per task (4128 definitions); tasks that wait at the provider (an action reports pending or paused, is answered / runs again later, the provider resumes the workflow); non-trivial = history with at "
         "least one accepted control request or at least one reported failure; distinct = (definition, history) digest")
 ASSUMPTIONS = ASSUME_SIM
 
@@ -31,6 +32,9 @@ def jobs(tier, seed):
     # fail commands with clean-up siblings under pause / cancel at every position
     js += batches("ctl_sweep", scale(tier, 28, 600), scale(tier, 2, 20), gen="dag", gseed=seed + 10, p_fail=0.35,
                   P=dict(p_fail_cmd=0.45, nmax=5, p_items=0.05, p_retry=0.05), modes=["cancel", "pause"], name="sweep-fail-commands")
+    # actions that wait at the provider (pending / paused tasks): paused only with nothing in flight, pausing only with something
+    js += batches("parked", scale(tier, 100, 2500), scale(tier, 10, 100), gen="dag", gseed=seed + 12, p_fail=0.15,
+                  P=dict(p_intjoin=0.3, p_items=0.35, p_retry=0.1, p_expr_conc=0.2, xs_max=3, nmax=5), scheds=2, name="pending-and-paused-tasks")
     # the repository's own fixture definitions under generated outcomes, schedules and requests
     js += [dict(fn="corpus", parts=4, part=i, runs=scale(tier, 4, 40), gseed=seed, ctl=dict(req=0.08, max_req=3, crash=0.04, early_render=0.3), name="corpus") for i in range(4)]
     # decision-shape family (exhaustive in the thorough tier, a rotating slice in the quick tier): every acyclic edge set over 4 tasks with a join x condition succeeded/failed per edge x outcome per task (4128 definitions)
